@@ -21,6 +21,23 @@ NPROC = int(os.environ.get("VERIF_NPROC", "16"))
 sys.dont_write_bytecode = True  # never drop __pycache__ into the tree under test
 
 
+def _quiet_unraisable(hook=sys.unraisablehook):
+    """CPython 3.12's wave.Wave_write.__del__ raises AttributeError when wave.open() itself failed (e.g. a missing
+    output directory, which some checks provoke on purpose thousands of times): that stdlib noise is dropped,
+    every other unraisable exception is still printed."""
+
+    def filt(u):
+        obj = getattr(u, "object", None)
+        if getattr(obj, "__qualname__", "") == "Wave_write.__del__" and isinstance(u.exc_value, AttributeError):
+            return
+        hook(u)
+
+    sys.unraisablehook = filt
+
+
+_quiet_unraisable()
+
+
 def seed():
     try:
         return int(os.environ.get("VERIF_SEED", "0"))
@@ -52,7 +69,7 @@ def scratch_dir():
         base = os.environ.get("VERIF_SCRATCH")
         if base is None:
             base = "/dev/shm" if os.path.isdir("/dev/shm") else tempfile.gettempdir()
-        d = tempfile.mkdtemp(prefix="auditok-verif-", dir=base)
+        d = tempfile.mkdtemp(prefix="auditok.verif-", dir=base)
         _SCRATCH = (os.getpid(), d)
         atexit.register(_rm_scratch, os.getpid(), d)
     return _SCRATCH[1]
@@ -72,7 +89,69 @@ def _pool_init():
     _SCRATCH = None
 
 
-def pmap(func, tasks, procs=None, chunksize=1):
+def crashed_in_library(tb):
+    """True when the exception came out of auditok called by the harness (a crash of the code under test, rule R5),
+    False when harness code is the innermost responsible party (harness bug, or a harness callback the library called)."""
+    lib = os.path.realpath(os.path.join(REPO, "auditok")) + os.sep
+    mine = os.path.realpath(VERIF) + os.sep
+    verdict = False
+    while tb is not None:
+        fn = os.path.realpath(tb.tb_frame.f_code.co_filename)
+        if fn.startswith(mine):
+            verdict = False
+        elif fn.startswith(lib):
+            verdict = True
+        tb = tb.tb_next
+    return verdict
+
+
+def _tuples(x):
+    if isinstance(x, list):
+        return tuple(_tuples(y) for y in x)
+    return x
+
+
+class _Guard:
+    """Turns an exception that escapes from the library inside a work function into a reported violation (with a
+    replay that re-runs that work item) instead of a harness error."""
+
+    def __init__(self, func):
+        self.func = func
+
+    def __call__(self, task):
+        try:
+            return self.func(task)
+        except Exception as exc:
+            if not crashed_in_library(exc.__traceback__):
+                raise
+            import traceback
+
+            where = traceback.extract_tb(exc.__traceback__)[-1]
+            what = "auditok raised %s: %s (at %s:%d) where the harness gave it valid input [work item %s.%s%s]" % (
+                type(exc).__name__, " ".join(str(exc).split())[:200], os.path.basename(where.filename), where.lineno,
+                self.func.__module__.split(".")[-1], self.func.__name__, repr(task)[:160])
+            key = "crash %s.%s %s %s" % (self.func.__module__.split(".")[-1], self.func.__name__, type(exc).__name__, repr(task)[:200])
+            case = {"kind": "crash", "module": self.func.__module__, "func": self.func.__name__, "task": jsonable(task)}
+            return {"cov": {}, "viol": [(key, what, case)], "nviol": 1}
+
+
+def replay_crash(case):
+    import importlib
+
+    func = getattr(importlib.import_module(case["module"]), case["func"])
+    task = _tuples(case["task"])
+    try:
+        part = func(task)
+    except Exception as exc:
+        if crashed_in_library(exc.__traceback__):
+            return "auditok raised %s: %s" % (type(exc).__name__, " ".join(str(exc).split())[:200])
+        raise
+    if isinstance(part, dict) and part.get("viol"):
+        return part["viol"][0][1]
+    return None
+
+
+def pmap(func, tasks, procs=None, chunksize=1, guard=True):
     """Run func over tasks on a fork pool; yields results in completion order.
 
     func must be a module-level function.  With one task or VERIF_NPROC=1 runs
@@ -80,6 +159,8 @@ def pmap(func, tasks, procs=None, chunksize=1):
     """
     tasks = list(tasks)
     procs = procs or NPROC
+    if guard:
+        func = _Guard(func)
     if procs <= 1 or len(tasks) <= 1:
         for t in tasks:
             yield func(t)
@@ -237,7 +318,7 @@ class Report:
         if not ev["coverage"]["samples"]:
             ev["coverage"]["samples"] = ["(no case recorded)"]
         evdir = os.path.join(VERIF, "evidence")
-        if REPO != "/repo":
+        if REPO != "/repo" or os.environ.get("VERIF_NO_EVIDENCE"):
             # a scratch tree (mutant / seeded change): never overwrite the evidence of the real tree
             evdir = os.path.join(VERIF, "replays", "_evidence_other_trees")
             os.makedirs(evdir, exist_ok=True)
@@ -295,7 +376,7 @@ def test_replay_{digest}():
 
     with open(os.path.join(os.path.dirname(__file__), "{digest}.json")) as fp:
         case = common.unhex(json.load(fp)["case"])
-    complaint = mod.replay(case)
+    complaint = (common.replay_crash if case.get("kind") == "crash" else mod.replay)(case)
     assert complaint is None, complaint
 """
 
